@@ -229,7 +229,13 @@ def finish(out, level="exploration", rule="", min_nontrivial=2, assumptions=None
     return 0
 
 
+LIFECYCLE_NOTE = ("; object life cycle: on every fifth case of every driver the common pipeline constructs all workflow objects (IndexClassification ... FieldOperatorContainer) "
+                  "before the lattice has a site and runs prepare/compute afterwards (feature declare_first); drivers repeat prepare/compute calls and drive copies of "
+                  "constructed/prepared/computed objects where the class is copyable")
+
+
 def run_vh_check(pid, tier, seed, drivers, rule, min_nontrivial, assumptions, per_case_timeout=30.0, extra=None):
+    rule = rule + LIFECYCLE_NOTE
     """drivers: list of dict(driver=..., flavours=[...], limit=None)."""
     out = Outcome(pid, tier, seed)
     flavours = sorted({f for d in drivers for f in d["flavours"]})
